@@ -53,18 +53,24 @@ def sig_ws(tagname):
     return f
 
 
+PLANS = [("Ws_sim.cfg", "pull", 1, [1, 3, 0], 300), ("Ws1000_sim.cfg", "pull", 1000, [1, 0], 200),
+         ("WsOut_sim.cfg", "push", 1, [1, 0], 100), ("WsOut1000_sim.cfg", "push", 1000, [3, 0], 100),
+         # client role: the socket dials, the driver is the WebSocket server
+         ("WsC_sim.cfg", "pulld", 1, [1, 0], 200), ("WsC1000_sim.cfg", "pulld", 1000, [3], 120), ("WsCOut_sim.cfg", "pushd", 1, [1, 0], 100)]
+
+
 def run(v, tier, rng):
+    run_ws(v, tier, PLANS)
+
+
+def run_ws(v, tier, plans, mc=True):
     thorough = tier == "thorough"
     exe = build_driver("drv_ws", DRV)
-    for mc in ("Ws_mc.cfg", "WsC_mc.cfg"):
-        r = tlc("wire/Ws.tla", mc, workers=8, timeout=1500)
-        tlc_require_ok(r, "Ws " + mc)
-        v.add_tlc("wire/Ws.tla:" + mc, r)
+    for mcfg in (("Ws_mc.cfg", "WsC_mc.cfg") if mc else ()):
+        r = tlc("wire/Ws.tla", mcfg, workers=8, timeout=1500)
+        tlc_require_ok(r, "Ws " + mcfg)
+        v.add_tlc("wire/Ws.tla:" + mcfg, r)
     total = 0
-    plans = [("Ws_sim.cfg", "pull", 1, [1, 3, 0], 300), ("Ws1000_sim.cfg", "pull", 1000, [1, 0], 200),
-             ("WsOut_sim.cfg", "push", 1, [1, 0], 100), ("WsOut1000_sim.cfg", "push", 1000, [3, 0], 100),
-             # client role: the socket dials, the driver is the WebSocket server
-             ("WsC_sim.cfg", "pulld", 1, [1, 0], 200), ("WsC1000_sim.cfg", "pulld", 1000, [3], 120), ("WsCOut_sim.cfg", "pushd", 1, [1, 0], 100)]
     for cfg, kind, scale, clamps, nsim in plans:
         g = tlc_edges("wire/Ws.tla", cfg, timeout=1500, simulate=nsim * (4 if thorough else 1), depth=14, seed=v.seed, cache=False)
         v.cov["transitions"] += len(g["edges"])
@@ -79,8 +85,10 @@ def run(v, tier, rng):
             v.cov.setdefault("edge_cover", {})[tag] = dict(edges=len(g["edges"]), covered=len(g["edges"]), walks=len(walks),
                                                             random_walks=0, validated=n, states=g["nstates"])
             total += n
+    if not mc:
+        return total
     v.cov["distinct_nontrivial"] = total
-    v.cov["rule"] = ("behaviours of Ws.tla (depth 14: 14 kinds of upgrade request, data frames fin/cont x sizes 0,1,3,5 units, 40 malformed or "
+    v.cov["rule"] = ("behaviours of Ws.tla (depth 14: 17 kinds of upgrade request incl. header blocks larger than the read buffer and over-long lines, data frames fin/cont x sizes 0,1,3,5 units, 40 malformed or "
                      "control frame shapes, sends of 0,1,3,5 units with fragment size 2 units) x I/O clamps x scales; distinct = behaviour x clamp runs")
     v.assumptions += ["both roles of the ws transport: listener (driver = client) and dialer (driver = server: the emitted upgrade request, "
                       "validation of the 101 response, masking of every emitted frame, redial after a refused upgrade)", "the HTTP client API, chunked transfer decoding and static file handlers of the "
